@@ -19,6 +19,16 @@ pub(super) fn index_for_rcurrent(
         .unwrap_or(0);
 
     if rotate_rcurrent {
+        #[cfg(flexi_logger_verif)]
+        {
+            crate::verif_hooks::point("rename.before");
+            if let Some(e) = crate::verif_hooks::fault(
+                "rename",
+                &config.file_spec.as_pathbuf(Some(CURRENT_INFIX)),
+            ) {
+                return Err(e);
+            }
+        }
         match std::fs::rename(
             config.file_spec.as_pathbuf(Some(CURRENT_INFIX)),
             config
@@ -26,6 +36,8 @@ pub(super) fn index_for_rcurrent(
                 .as_pathbuf(Some(&number_infix(index_for_rcurrent))),
         ) {
             Ok(()) => {
+                #[cfg(flexi_logger_verif)]
+                crate::verif_hooks::point("rename.after");
                 index_for_rcurrent += 1;
             }
             Err(e) => {
